@@ -137,24 +137,20 @@ def _post(cli, rig):
 
 
 def _late_segment(cli, rig, before, tag, initiate=True):
-    """A download was left open before the refusal (pre-state 'open-download').  A refused *initiate* ends it:
-    a further segment is not a continuation of anything and nothing may be stored.  After a refused
-    non-initiate command the open transfer may go on, but only its own object may change."""
+    """A download to 0x2000 was left open before the refusal (pre-state 'open-download').  Whether a server ends
+    that download on the refusal or lets it go on is its own business; what the property demands is that the
+    refused access changes nothing: a further segment may be refused, or may continue the download *to 0x2000*,
+    but no other object - in particular not the one whose access was just refused - may change."""
     extra = [sx.ite(sx.fresh_bool("ltog"), 0x10, 0) | 0x01 | (sx.fresh_int("ln", 0, 7) << 1)] + \
         sx.items(sx.fresh_bytes("ldata", 7))
     r = cli.xfer(extra)
     after = rig.store_snapshot()
-    if initiate:
-        if r is not None:
-            sx.prove(r[0] == 0x80, "a segment of the superseded download was acknowledged after a refused initiate",
-                     tag + "/open-download/late-segment")
-        sx.prove(_same(after, before), "a segment after a refused initiate changed the store",
-                 tag + "/open-download/stored")
-    else:
-        a = {k: v for k, v in after.items() if k != (0x2000, 0)}
-        b = {k: v for k, v in before.items() if k != (0x2000, 0)}
-        sx.prove(_same(a, b), "a segment after a refused command changed another object",
-                 tag + "/open-download/stored")
+    a = {k: v for k, v in after.items() if k != (0x2000, 0)}
+    b = {k: v for k, v in before.items() if k != (0x2000, 0)}
+    sx.prove(_same(a, b), "a segment after a refused access changed an object other than the open download's",
+             tag + "/open-download/stored")
+    if r is not None and bool(r[0] == 0x80):
+        sx.prove(_same(after, before), "a refused segment changed the store", tag + "/open-download/refused-stored")
     sx.reach("late-segment")
 
 
